@@ -13,7 +13,7 @@ SHARDS = {"quick": 16, "thorough": 16}
 WATCHDOG = {"quick": 1800, "thorough": 10800}
 CASES = {"quick": 45, "thorough": 500}
 FLOORS = {
-    "quick": {"distinct_nontrivial": 130, "table_rows_checked": 7700, "greedy_compared": 270,
+    "quick": {"inner_scores_checked_against_cost_definition": 1923, "distinct_nontrivial": 130, "table_rows_checked": 7700, "greedy_compared": 270,
               "cases[msl=1]": 60, "inner_intervals_evaluated": 100000, "threshold_pairs": 150},
     "thorough": {"distinct_nontrivial": 800, "table_rows_checked": 40000},
 }
